@@ -37,6 +37,7 @@ Clause(c) ==
   ELSE IF \E a \in 1..N(c) : c.check_recovery /\ Abs(c.flux_fit[a] - c.flux_true[a]) > c.tol_flux THEN "recovers_rendered_fluxes"
   ELSE IF c.check_recovery /\ c.resid_k > c.tol_resid THEN "residual_image_is_zero"
   ELSE IF ~c.maskblind_ok THEN "values_under_the_mask_do_not_matter"
+  ELSE IF ~c.units_ok THEN "convertible_units_give_the_same_physical_result"
   ELSE IF ~c.scaled_ok THEN "fluxes_scale_with_the_image"
   ELSE IF ~c.iter_equal THEN "iterative_with_one_iteration_equals_single"
   ELSE "ok"
